@@ -104,6 +104,33 @@ def judge(chk, sc, o):
     return cls
 
 
+def handover_tie(chk, sc, o, model):
+    """apply pools: what happened to the task the victim was handed, vs Mpire.Handover for the phase the victim was killed in"""
+    inj = o.get('injected') or {}
+    if sc['ops'][-1]['op'] != 'apply_batch' or not inj or o.get('stuck') or o.get('harness_error'):
+        return
+    phase = {'apply_pill_taken': 'pill', 'apply_task_taken': 'task', 'job_announced': 'announced', 'in_user': 'announced'}.get(inj.get('victim_phase'))
+    if phase is None:
+        return
+    last = o['ops'][-1]
+    bad = sorted(a for a in last.get('apply', []) if a[1] != 'ok')
+    # the task the victim was handed: tasks are handed out in index order, so it is the lowest-index task that did not succeed
+    mine = bad[:1]
+    if not mine:
+        impl = 'done'
+    elif mine[0][2] == 'TimeoutError' and not mine[0][3]:
+        impl = 'lost'
+    elif mine[0][2] == 'RuntimeError':
+        impl = 'failed-with-death-error'
+    else:
+        impl = 'ran-as-chunk'
+    chk.count('apply hand-over under SIGKILL vs Mpire.Handover', key=(phase, impl, str(sc['inject'])), nontrivial=True,
+              sample={'phase': phase, 'impl': impl, 'model': model.get(phase)}, phase=phase, impl=impl)
+    # a task that had already finished when the announced worker died completes normally: 'done' is compatible with 'announced'
+    if impl != model.get(phase) and not (phase == 'announced' and impl == 'done'):
+        chk.mismatch('apply hand-over under SIGKILL vs Mpire.Handover', {'scenario': sc, 'victim_phase': inj.get('victim_phase')}, impl, model.get(phase))
+
+
 def judge_idle(chk, sc, o):
     if o.get('harness_error'):
         return
@@ -155,6 +182,8 @@ def run(chk):
         cls = judge(chk, sc, o)
         chk.count('corpus (minimised past failures, run first)', key=key_of(sc) + str(sc.get('inject')), nontrivial=True, sample={'scenario': sc, 'outcome': cls})
     bases = base_scenarios(rng, 6 if chk.tier == 'quick' else 80)
+    handover_model = dict(zip(['queued', 'pill', 'task', 'announced'], drv.run(['handover phase=%s' % p for p in ['queued', 'pill', 'task', 'announced']])))
+    chk.notes['handover_model'] = handover_model
     bobs = inject.baseline(bases)
     swept = []
     for sc, bo in zip(bases, bobs):
@@ -166,6 +195,7 @@ def run(chk):
     for sc, o in zip(swept, obs):
         cls = judge(chk, sc, o)
         classes[cls] = classes.get(cls, 0) + 1
+        handover_tie(chk, sc, o, handover_model)
         if cls and not str(cls).startswith('skipped') and cls != 'harness':
             chk.count('SIGKILL at every scheduling point of every worker instance (DetSim)', key=key_of(sc) + str(sc['inject']), nontrivial=True,
                       sample={'scenario': sc, 'outcome': cls, 'injected': o.get('injected')}, outcome=cls, op=sc['ops'][0]['op'],
